@@ -10,6 +10,7 @@ package poolfile
 
 import (
 	"context"
+	"crypto/md5"
 	"crypto/sha256"
 	"encoding/hex"
 	"fmt"
@@ -52,6 +53,20 @@ const (
 
 var digestFunction = digest.MustNewFunction("verif", remoteexecution.DigestFunction_SHA256)
 
+// The digest functions callers ask for ("" = sha256). A memoised digest
+// belongs to one function; asking for another one must not reuse it.
+var digestFunctions = map[string]digest.Function{
+	"sha256": digestFunction,
+	"md5":    digest.MustNewFunction("verif", remoteexecution.DigestFunction_MD5),
+}
+
+func functionOf(df string) digest.Function {
+	if f, ok := digestFunctions[df]; ok {
+		return f
+	}
+	return digestFunction
+}
+
 // ---------------------------------------------------------------------
 // Digest dictionary: hash -> contents, for all contents of the small
 // domain. Decoding a digest is a pure function; it lets the trace carry
@@ -60,20 +75,28 @@ var digestFunction = digest.MustNewFunction("verif", remoteexecution.DigestFunct
 
 var (
 	dictOnce sync.Once
-	dict     map[string][]int
+	dict     map[string]map[string][]int // function -> hash -> contents
 )
 
-func hashOf(b []byte) string {
+// hashOf hashes b with the function a caller asked for.
+func hashOf(df string, b []byte) string {
+	if df == "md5" {
+		s := md5.Sum(b)
+		return hex.EncodeToString(s[:])
+	}
 	s := sha256.Sum256(b)
 	return hex.EncodeToString(s[:])
 }
 
-func preimage(hash string) ([]int, bool) {
+// preimage decodes a hash of the function the caller asked for.
+func preimage(df, hash string) ([]int, bool) {
 	dictOnce.Do(func() {
-		dict = map[string][]int{}
+		dict = map[string]map[string][]int{"sha256": {}, "md5": {}}
 		var rec func(cur []byte)
 		rec = func(cur []byte) {
-			dict[hashOf(cur)] = ints(cur)
+			for fn, m := range dict {
+				m[hashOf(fn, cur)] = ints(cur)
+			}
 			if len(cur) == maxSize {
 				return
 			}
@@ -83,7 +106,10 @@ func preimage(hash string) ([]int, bool) {
 		}
 		rec(nil)
 	})
-	p, ok := dict[hash]
+	if df != "md5" {
+		df = "sha256"
+	}
+	p, ok := dict[df][hash]
 	if !ok {
 		return []int{}, false
 	}
@@ -403,7 +429,8 @@ func (c *fakeCAS) Put(ctx context.Context, d digest.Digest, b buffer.Buffer) err
 	}
 	all := append(first[:n1], rest...)
 	fail := o.mode == "fail_after" || err1 != nil
-	w.emit(o.id, common.Ev{"ev": "put_end", "id": o.id, "f": f, "data": ints(all), "cashash": hashOf(all), "fail": fail})
+	// cashash: the digest of the received bytes under the function the caller of the upload asked for
+	w.emit(o.id, common.Ev{"ev": "put_end", "id": o.id, "f": f, "data": ints(all), "cashash": hashOf(o.df, all), "fail": fail})
 	r.Close()
 	w.emit(o.id, common.Ev{"ev": "put_closed", "id": o.id, "f": f})
 	if err1 != nil {
@@ -452,6 +479,7 @@ type opCtl struct {
 	data  []byte
 	n     int
 	mode  string
+	df    string // digest function asked for (upload, stat); "" = sha256
 	gated bool
 	ref   int // fopen id for fread/fclose
 
@@ -537,13 +565,13 @@ func errName(err error) string {
 func (w *world) callEvent(o *opCtl) common.Ev {
 	return common.Ev{"ev": "call", "id": o.id, "op": o.op, "f": fname(o.f), "mask": o.mask,
 		"trunc": o.trunc, "off": o.off, "data": ints(o.data), "n": o.n, "mode": o.mode,
-		"gated": o.gated, "ref": o.ref, "viafd": o.viaFd}
+		"gated": o.gated, "ref": o.ref, "viafd": o.viaFd, "df": o.df}
 }
 
 func retEvent(o *opCtl) common.Ev {
 	return common.Ev{"ev": "ret", "id": o.id, "op": o.op, "f": fname(o.f), "mask": o.mask, "st": "OK",
 		"data": []int{}, "n": 0, "eof": false, "size": 0, "links": 0, "hash": "", "dsize": 0,
-		"pre": []int{}, "known": false, "hasdigest": false, "ref": o.ref}
+		"pre": []int{}, "known": false, "hasdigest": false, "dfok": true, "ref": o.ref}
 }
 
 // run performs the call on the real code and fills in the reply.
@@ -646,7 +674,7 @@ func (o *opCtl) run(ev common.Ev) {
 	case "upload":
 		if w.dirMode && len(fc.names) > 0 {
 			// The call LocalBuildExecutor / OutputHierarchy make.
-			d, err := w.bd.UploadFile(context.WithValue(ctx, opKey{}, o), fc.names[0], digestFunction, w.delayCtx.Done())
+			d, err := w.bd.UploadFile(context.WithValue(ctx, opKey{}, o), fc.names[0], functionOf(o.df), w.delayCtx.Done())
 			ev["st"] = errName(err)
 			if err == nil {
 				o.fillDigest(ev, d)
@@ -658,7 +686,7 @@ func (o *opCtl) run(ev common.Ev) {
 		p := virtual.ApplyUploadFile{
 			Context:                   context.WithValue(ctx, opKey{}, o),
 			ContentAddressableStorage: w.cas,
-			DigestFunction:            digestFunction,
+			DigestFunction:            functionOf(o.df),
 			WritableFileUploadDelay:   w.delayCtx.Done(),
 		}
 		if !fc.leaf.VirtualApply(&p) {
@@ -690,7 +718,7 @@ func (o *opCtl) run(ev common.Ev) {
 	case "fclose":
 		o.reader.r.Close()
 	case "stat":
-		df := digestFunction
+		df := functionOf(o.df)
 		p := virtual.ApplyGetBazelOutputServiceStat{DigestFunction: &df}
 		if !fc.leaf.VirtualApply(&p) {
 			ev["st"] = "UNHANDLED"
@@ -699,7 +727,7 @@ func (o *opCtl) run(ev common.Ev) {
 		ev["st"] = errName(p.Err)
 		if p.Err == nil {
 			if loc := p.Stat.GetFile().GetLocator(); loc != nil {
-				if d, ok := locatorDigest(loc); ok {
+				if d, ok := locatorDigest(loc, df); ok {
 					o.fillDigest(ev, d)
 				} else {
 					ev["st"] = "BADLOCATOR"
@@ -711,16 +739,23 @@ func (o *opCtl) run(ev common.Ev) {
 	}
 }
 
-func locatorDigest(loc *anypb.Any) (digest.Digest, bool) {
+// locatorDigest decodes the digest of a locator; a hash that does not have
+// the shape of the function asked for is decoded with the function it has
+// the shape of (the trace then says that another function was used).
+func locatorDigest(loc *anypb.Any, asked digest.Function) (digest.Digest, bool) {
 	var l bazeloutputservicerev2.FileArtifactLocator
 	if err := loc.UnmarshalTo(&l); err != nil {
 		return digest.BadDigest, false
 	}
-	d, err := digestFunction.NewDigestFromProto(l.Digest)
-	if err != nil {
-		return digest.BadDigest, false
+	if d, err := asked.NewDigestFromProto(l.Digest); err == nil {
+		return d, true
 	}
-	return d, true
+	for _, fn := range digestFunctions {
+		if d, err := fn.NewDigestFromProto(l.Digest); err == nil {
+			return d, true
+		}
+	}
+	return digest.BadDigest, false
 }
 
 func (fc *fileCtl) newName(f int) path.Component {
@@ -732,7 +767,8 @@ func (o *opCtl) fillDigest(ev common.Ev, d digest.Digest) {
 	ev["hasdigest"] = true
 	ev["hash"] = d.GetHashString()
 	ev["dsize"] = int(d.GetSizeBytes())
-	pre, known := preimage(d.GetHashString())
+	ev["dfok"] = d.UsesDigestFunction(functionOf(o.df))
+	pre, known := preimage(o.df, d.GetHashString())
 	ev["pre"] = pre
 	ev["known"] = known
 }
